@@ -39,7 +39,7 @@ type (
 		X Expr
 		F string
 	}
-	Index struct{ X, I Expr }
+	Index  struct{ X, I Expr }
 	SliceE struct{ X, Lo, Hi Expr }
 	Quant  struct {
 		Forall bool
@@ -126,7 +126,7 @@ type parser struct {
 }
 
 func (p *parser) peek() ltoken { return p.toks[p.pos] }
-func (p *parser) next() ltoken  { t := p.toks[p.pos]; p.pos++; return t }
+func (p *parser) next() ltoken { t := p.toks[p.pos]; p.pos++; return t }
 func (p *parser) isOp(s string) bool {
 	t := p.peek()
 	return t.kind == "op" && t.text == s
@@ -354,22 +354,24 @@ type Clause struct {
 	Items []Expr // for assigns
 	Props []string
 	Name  string
+	// call-site clauses (Kind "callsite"): the callee's key; Loop holds the ordinal of the call site (by source position)
+	Callee string
 }
 
 type FuncContract struct {
-	Key      string
-	Props    []string
-	Clauses  []*Clause
-	Assigns  *Clause // nil = unspecified (assigns everything)
-	Pure     bool
-	Trusted  bool   // contract assumed, body not verified (must be listed in evidence)
-	Why      string // reason when trusted
-	Strings  string
-	NoInline bool
+	Key        string
+	Props      []string
+	Clauses    []*Clause
+	Assigns    *Clause // nil = unspecified (assigns everything)
+	Pure       bool
+	Trusted    bool   // contract assumed, body not verified (must be listed in evidence)
+	Why        string // reason when trusted
+	Strings    string
+	NoInline   bool
 	Inline     []string // callees to inline although they have a contract (lemma functions that prove laws about them)
-	Chained    bool // later ensures may use earlier ones
-	AppendView bool // state the element view of append results with sla-triggers (needed for quantified slice facts)
-	Line     int
+	Chained    bool     // later ensures may use earlier ones
+	AppendView bool     // state the element view of append results with sla-triggers (needed for quantified slice facts)
+	Line       int
 }
 
 type Define struct {
@@ -410,8 +412,10 @@ type Contracts struct {
 	Ghosts  []Param
 }
 
+const anyLoop = -2 // an invariant of every loop of the function (keeps clauses)
+
 var clauseKw = map[string]bool{"excluding": true, "uses": true, "law": true, "defines": true, "assumes": true, "requires": true, "ensures": true, "assigns": true, "loop": true, "decreases": true, "property": true,
-	"pure": true, "inline": true, "appendview": true, "chained": true, "trusted": true, "strings": true, "noinline": true, "params": true}
+	"call": true, "keeps": true, "pure": true, "inline": true, "appendview": true, "chained": true, "trusted": true, "strings": true, "noinline": true, "params": true}
 
 func parseProps(s *string) []string {
 	// leading "[C01,C02]" tag
@@ -601,11 +605,55 @@ func loadContracts(path string) (*Contracts, error) {
 			kind := fs[1]
 			src := strings.TrimSpace(rest[strings.Index(rest, kind)+len(kind):])
 			props := parseProps(&src)
+			lname := ""
+			if i := strings.Index(src, "@@"); i >= 0 { // optional name, kept in the clause text of the obligation
+				lname = strings.TrimSpace(src[:i])
+				src = strings.TrimSpace(src[i+2:])
+			}
 			e, err := parseExpr(src)
 			if err != nil {
 				return nil, fail(err)
 			}
-			cur.Clauses = append(cur.Clauses, &Clause{Kind: kind, Loop: n, Src: src, E: e, Props: props})
+			if lname != "" {
+				src = lname + " @@ " + src
+			}
+			cur.Clauses = append(cur.Clauses, &Clause{Kind: kind, Loop: n, Src: src, E: e, Props: props, Name: lname})
+		case "call":
+			// call <callee> <k> requires [props] name @@ E: an obligation at the k-th call site (by source position) of
+			// <callee> in this function, evaluated just before the call; arg_<param> names the actual arguments
+			fs := strings.Fields(rest)
+			if len(fs) < 4 || fs[2] != "requires" {
+				return nil, fail(fmt.Errorf("bad call clause (call <callee> <k> requires E)"))
+			}
+			n, err := strconv.Atoi(fs[1])
+			if err != nil {
+				return nil, fail(err)
+			}
+			src := strings.TrimSpace(rest[strings.Index(rest, " requires ")+len(" requires "):])
+			props := parseProps(&src)
+			name := ""
+			if i := strings.Index(src, "@@"); i >= 0 {
+				name = strings.TrimSpace(src[:i])
+				src = strings.TrimSpace(src[i+2:])
+			}
+			e, err := parseExpr(src)
+			if err != nil {
+				return nil, fail(err)
+			}
+			cur.Clauses = append(cur.Clauses, &Clause{Kind: "callsite", Loop: n, Callee: fs[0], Src: src, E: e, Props: props, Name: name})
+		case "keeps":
+			// keeps [props] g1, g2: the ghost variables have their entry value at every return and at every loop head
+			props := parseProps(&rest)
+			for _, g := range splitTop(rest, ',') {
+				g = strings.TrimSpace(g)
+				src := g + " == old(" + g + ")"
+				e, err := parseExpr(src)
+				if err != nil {
+					return nil, fail(err)
+				}
+				cur.Clauses = append(cur.Clauses, &Clause{Kind: "ensures", Loop: -1, Src: src, E: e, Props: props, Name: "keeps-" + g})
+				cur.Clauses = append(cur.Clauses, &Clause{Kind: "invariant", Loop: anyLoop, Src: src, E: e, Props: props})
+			}
 		case "define":
 			d, err := parseDefine(rest)
 			if err != nil {
